@@ -72,6 +72,9 @@ def materialise(cfg, lay, path):
         files = lay["files"][fidx]
         for kind in ("amr", "hydro", "grav", "rt", "part"):
             recs = files[kind]
+            if kind == "hydro" and cfg.get("hshift"):
+                # a derived output: the same layout with every hydro value shifted (harness-only; the expectation shifts alike)
+                recs = [dict(r, v=[x + cfg["hshift"] for x in r["v"]]) if (r["tag"] == "var" and r["t"] == "d") else r for r in recs]
             if recs:
                 with open(os.path.join(d, f"{kind}_{num}.out{fidx + 1:05d}"), "wb") as f:
                     f.write(pack(recs))
